@@ -201,6 +201,24 @@ impl Bishop {
     }
 }
 
+#[cfg(rce_verif)]
+impl Bishop {
+    /// Verification hook: (masks, magics, index bits, table size) as the lookups use them.
+    pub fn verif_consts() -> ([u64; 64], [u64; 64], [u8; 64], usize) {
+        let masks = MASKS.get_or_init(Self::init_masks);
+        let mut m = [0u64; 64];
+        for (i, mask) in masks.iter().enumerate() {
+            m[i] = **mask;
+        }
+        (m, Self::MAGICS, Self::INDEX_BITS, ATTACKS_TABLE_SIZE)
+    }
+
+    /// Verification hook: the ray-walking routine the table is filled from.
+    pub fn verif_attacks_slow(square: Square, blockers: Bitboard) -> Bitboard {
+        Self::get_attacks_slow(square, blockers)
+    }
+}
+
 ////////////////////////////////////////////////////////////////////////////////
 
 #[cfg(test)]
